@@ -41,21 +41,24 @@ type C20Query struct {
 
 // C20Scenario is one run of the whole server.
 type C20Scenario struct {
-	Whoami     bool         `json:"whoami"`
-	RefuseANY  bool         `json:"refuse_any"`
-	MaxAns     []int        `json:"max_ans"` // per listener IP
-	ReadMs     int          `json:"read_timeout_ms"`
-	IdleMs     int          `json:"idle_timeout_ms"`
-	DropPM     int          `json:"drop_pm"`
-	DupPM      int          `json:"dup_pm"`
-	JitterMs   int          `json:"jitter_ms"`
-	Segments   []int        `json:"tcp_segments,omitempty"`
-	SegDelayMs int          `json:"tcp_seg_delay_ms,omitempty"`
-	NetSeed    uint64       `json:"net_seed"`
-	Clients    [][]C20Query `json:"clients"`
-	Tape       []uint8      `json:"tape"`
-	TapeSeed   uint64       `json:"tape_seed"`
-	Calm       int          `json:"calm"`
+	Whoami     bool   `json:"whoami"`
+	RefuseANY  bool   `json:"refuse_any"`
+	MaxAns     []int  `json:"max_ans"` // per listener IP
+	ReadMs     int    `json:"read_timeout_ms"`
+	IdleMs     int    `json:"idle_timeout_ms"`
+	DropPM     int    `json:"drop_pm"`
+	DupPM      int    `json:"dup_pm"`
+	JitterMs   int    `json:"jitter_ms"`
+	Segments   []int  `json:"tcp_segments,omitempty"`
+	SegDelayMs int    `json:"tcp_seg_delay_ms,omitempty"`
+	NetSeed    uint64 `json:"net_seed"`
+	// AcceptErrMs: after each of these pauses the Accept of a TCP listener fails once with a temporary
+	// error (EMFILE-like); the server must keep accepting
+	AcceptErrMs []int        `json:"accept_err_ms,omitempty"`
+	Clients     [][]C20Query `json:"clients"`
+	Tape        []uint8      `json:"tape"`
+	TapeSeed    uint64       `json:"tape_seed"`
+	Calm        int          `json:"calm"`
 }
 
 var c20Listeners = []string{"10.9.0.1", "10.9.0.2"}
@@ -106,6 +109,9 @@ func drawC20(rt *rapid.T, tier string) C20Scenario {
 	if rapid.IntRange(0, 1).Draw(rt, "segmented") == 0 {
 		sc.Segments = rapid.SliceOfN(rapid.SampledFrom([]int{1, 2, 3, 5, 100}), 1, 3).Draw(rt, "segments")
 		sc.SegDelayMs = rapid.SampledFrom([]int{0, 1, 50, 300}).Draw(rt, "seg_delay_ms")
+	}
+	if rapid.IntRange(0, 3).Draw(rt, "accept_errs") == 0 {
+		sc.AcceptErrMs = rapid.SliceOfN(rapid.SampledFrom([]int{0, 1, 7, 45, 400}), 1, 3).Draw(rt, "accept_err_ms")
 	}
 	sc.Tape = rapid.SliceOfN(rapid.Uint8(), 0, 128).Draw(rt, "tape")
 	return sc
@@ -421,6 +427,11 @@ func runC20(t *testing.T, sc C20Scenario, keep bool) *core.Result {
 								connTo = q.Listener
 								if err != nil {
 									conn = nil
+									if finalPhase {
+										// nobody listens there any more although the server is running
+										res.Add("not-live", "not-live|tcp-connect", fmt.Sprintf("%s: connecting to the TCP listener %s fails after the last fault: %v", where, c20Listeners[q.Listener], err))
+										return true
+									}
 									continue
 								}
 							}
@@ -464,7 +475,13 @@ func runC20(t *testing.T, sc C20Scenario, keep bool) *core.Result {
 					s.Sleep(50 * time.Millisecond)
 				}
 				probe := C20Query{Q: 0, Listener: 0}
-				for k, p := range append(unanswered[ci], pending{probe, nil}) {
+				final := append(unanswered[ci], pending{probe, nil})
+				if len(sc.AcceptErrMs) > 0 {
+					for li := range sc.MaxAns {
+						final = append(final, pending{C20Query{Q: 0, TCP: true, Listener: li}, nil})
+					}
+				}
+				for k, p := range final {
 					q := p.q
 					q.NewConn = true
 					// a slow, segmented TCP sender may legitimately run into the server's read timeout;
@@ -475,6 +492,23 @@ func runC20(t *testing.T, sc C20Scenario, keep bool) *core.Result {
 				}
 				if conn != nil {
 					conn.Close()
+				}
+			})
+		}
+		if len(sc.AcceptErrMs) > 0 {
+			s.Go("acceptfault", true, func() {
+				for i, ms := range sc.AcceptErrMs {
+					if ms > 0 {
+						s.Sleep(time.Duration(ms) * time.Millisecond)
+					} else {
+						s.Y("acceptfault.next")
+					}
+					if finalPhase {
+						return
+					}
+					if ls := nw.Listeners(); len(ls) > 0 && ls[i%len(ls)].InjectAcceptError() {
+						res.Fault("tcp-accept-error")
+					}
 				}
 			})
 		}
